@@ -23,6 +23,7 @@ var srcC05b = []*g2lTarget{
 		optFields: []string{"Error", "revocationCodeSigningValidator", "revocationClient"},
 		mapFields: []string{"Enforcement"},
 		optVars:   []string{"err"},
+		optElems:  []string{"certResults"},
 		zeroFill:  true,
 		callSubst: map[string]string{
 			"revocationFinalResult": "verifier.revocationFinalResult",
